@@ -251,6 +251,14 @@ theorem start_facts (f : ℚ → ℚ) (lo hi : ℚ) :
   · rename_i h
     exact ⟨⟨inHull_left _ _, inHull_right _ _, rfl, rfl, inHull_left _ _, rfl⟩, fun h' => h', not_lt.mp h, trivial⟩
 
+/-- the swap at the start does not change the product of the end values -/
+theorem start_prod (f : ℚ → ℚ) (lo hi : ℚ) : (start f lo hi).fa * (start f lo hi).fb = f lo * f hi := by
+  unfold start swp
+  simp only
+  split
+  · exact mul_comm _ _
+  · rfl
+
 theorem run_invH (f : ℚ → ℚ) (lo hi tol : ℚ) (maxIter : Nat) : InvH f lo hi (run f lo hi tol maxIter).1 :=
   loop_invH f lo hi tol maxIter _ _ _ (start_facts f lo hi).1
 
@@ -264,5 +272,49 @@ theorem run_exit (f : ℚ → ℚ) (lo hi tol : ℚ) (maxIter : Nat) (h3 : 3 ≤
     r.fb = 0 ∨ r.fs = 0 ∨ |r.b - r.a| < tol ∨ maxIter ≤ r.numiter := by
   have hn := (start_facts f lo hi).2.2.2
   exact loop_exit f tol maxIter maxIter (start f lo hi) [] (by omega)
+
+end DVP.Brent
+
+namespace DVP.Brent
+open DV DV.Brent
+
+/-- a pass that evaluated an exact zero ends with the zero as the returned point -/
+theorem iter_fs_zero (f : ℚ → ℚ) (tol : ℚ) (st : St ℚ) (h : (iter f tol st).1.fs = 0) : (iter f tol st).1.fb = 0 := by
+  unfold iter at h ⊢
+  simp only at h ⊢
+  unfold upd swp
+  simp only [h, mul_zero, lit'_rat, Nat.cast_zero, lt_self_iff_false, if_false, absC_rat, abs_zero]
+  split
+  · rfl
+  · rename_i hlt
+    simp only [abs_pos, ne_eq, not_not] at hlt
+    exact hlt
+
+/-- `fs = 0 → fb = 0` is preserved by the loop (it is established by every pass) -/
+theorem loop_fs_zero (f : ℚ → ℚ) (tol : ℚ) (maxIter : Nat) : ∀ (fuel : Nat) (st : St ℚ) (tr : List ℚ),
+    (st.fs = 0 → st.fb = 0) → ((loop f tol maxIter fuel st tr).1.fs = 0 → (loop f tol maxIter fuel st tr).1.fb = 0) := by
+  intro fuel
+  induction fuel with
+  | zero => intro st tr h; exact h
+  | succ n ih =>
+    intro st tr _
+    unfold loop
+    simp only
+    split
+    · exact iter_fs_zero f tol st
+    · exact ih _ _ (iter_fs_zero f tol st)
+
+theorem run_fs_zero (f : ℚ → ℚ) (lo hi tol : ℚ) (maxIter : Nat) :
+    (run f lo hi tol maxIter).1.fs = 0 → (run f lo hi tol maxIter).1.fb = 0 := by
+  unfold run
+  apply loop_fs_zero
+  intro h
+  -- the start state: fs = fa and |fb| ≤ |fa|
+  have hs := (start_facts f lo hi)
+  have hfs : (start f lo hi).fs = (start f lo hi).fa := rfl
+  rw [hfs] at h
+  have hord := hs.2.2.1
+  rw [h, abs_zero] at hord
+  exact abs_eq_zero.mp (le_antisymm hord (abs_nonneg _))
 
 end DVP.Brent
